@@ -258,6 +258,18 @@ class Hooks:
     def isinstance(self, eng, v, clsnames):
         raise Unsupported(f"isinstance({v!r}, {clsnames})")
 
+    def str_format(self, eng, fmt, arg):
+        """printf-style formatting: the text is dropped, only its length is kept when it is determined"""
+        import re as _re
+        m = _re.fullmatch(r"%(-?)(\d+)s", fmt)
+        if m and not isinstance(arg, tuple):
+            width = int(m.group(2))
+            n = arg.attrs.get("length") if isinstance(arg, Opaque) else (len(arg) if isinstance(arg, str) else None)
+            if n is not None:
+                ln = z3.If(n >= width, n, width) if is_sym(n) else max(n, width)
+                return Opaque("text", length=ln, formatted=fmt)
+        return Opaque("text", formatted=fmt)
+
 
 class Engine:
     def __init__(self, funcs, hooks, prune_ms=250, max_paths=20000, int_div_lemmas=True, prune_logic="QF_LIA"):
@@ -757,6 +769,9 @@ class Engine:
                 return l - r
             if isinstance(op, ast.BitXor):
                 return l ^ r
+        if isinstance(op, ast.Add) and (isinstance(l, Opaque) and l.tag == "text" or isinstance(r, Opaque) and r.tag == "text") \
+                and isinstance(l, (str, Opaque, tuple)) and isinstance(r, (str, Opaque, tuple)):
+            return Opaque("text", parts=[l, r])
         if isinstance(op, ast.Add) and (isinstance(l, Template) or isinstance(r, Template)):
             return Template([l, r])
         if isinstance(op, ast.Add):
@@ -771,7 +786,7 @@ class Engine:
             return self.floordiv(l, r)
         if isinstance(op, ast.Mod):
             if isinstance(l, str):
-                raise Unsupported("string formatting")
+                return self.hooks.str_format(self, l, r)
             return self.mod(l, r)
         if isinstance(op, ast.Div):
             if is_sym(r):
@@ -993,8 +1008,12 @@ class Engine:
                         parts.append(str(val))
                     elif is_sym(val) and (z3.is_string(val) or (z3.is_int(val) and v.format_spec is None)):
                         parts.append(val)
+                    elif isinstance(val, Opaque):
+                        parts.append(val)
                     else:
                         return Opaque("fstring")
+            if any(isinstance(p, Opaque) for p in parts):
+                return Opaque("text", parts=parts)   # text whose pieces are kept for the contract to inspect
             if all(isinstance(p, str) for p in parts):
                 return "".join(parts)
             if any(is_sym(p) and z3.is_int(p) for p in parts) or any(isinstance(p, Template) for p in parts):
